@@ -2,6 +2,7 @@ package rules
 
 import (
 	"fmt"
+	"go/token"
 	"go/types"
 	"sort"
 	"strings"
@@ -493,5 +494,96 @@ func c13optionsFirst(c *Ctx) {
 	})
 	if applied == 0 {
 		c.R.Undecided(rule, pkg+".NewSubscriber#options", "the application of the option functions is recognised", "no dynamic call taking the new Subscriber")
+	}
+}
+
+// c13stickyDisconnect (R15, round 8): "full reloads after reconnect". A connection comes back the way gRPC does it —
+// TransientFailure → (Idle →) Connecting → Ready — so "was disconnected" must survive the states in between: it is a
+// flag of the watcher, set on every path that sees TransientFailure or Shutdown, tested (and cleared) on the Ready path
+// that notifies the listeners, and touched nowhere else. Deriving it from the state directly before Ready misses every
+// real reconnect (the state before Ready is Connecting) and the view stays on the pre-outage snapshot.
+func c13stickyDisconnect(c *Ctx) {
+	rule := "C13.R15"
+	f := c.fn(rule, discovInt, "(*stateWatcher).updateState")
+	if f == nil {
+		return
+	}
+	ps := c.paths(rule, f, px.Config{})
+	notify := calleeIs(discovInt + ".(*stateWatcher).notifyListeners")
+	flag := ""
+	sawDown, sawReady := 0, 0
+	c.forall(rule, discovInt+".(*stateWatcher).updateState#sticky", "a disconnection (TransientFailure/Shutdown) sets a flag of the watcher on every path; the listeners are notified exactly on the Ready path that finds the flag set, and that path clears it; no other path touches the flag or notifies", f, ps, func(p *px.Path) (bool, string) {
+		if p.Exit != px.ExitReturn {
+			return true, ""
+		}
+		state := int64(-1)
+		for _, b := range p.All(px.KindIs(px.EvBranch)) {
+			cn := b.Cond.Strip(true)
+			if cn == nil || cn.Kind != px.KBinOp || cn.Op != token.EQL || !b.Taken {
+				continue
+			}
+			if k, ok := constInt(p, cn.Y); ok {
+				state = k
+			} else if k, ok := constInt(p, cn.X); ok {
+				state = k
+			}
+		}
+		var sets, clears []string
+		for _, s := range p.All(px.KindIs(px.EvStore)) {
+			if s.Addr == nil || s.Addr.Kind != px.KFieldAddr {
+				continue
+			}
+			_, fname, _ := s.Addr.FieldAddrOf()
+			switch p.Abs(s.Val).K {
+			case px.True:
+				sets = append(sets, fname)
+			case px.False:
+				clears = append(clears, fname)
+			}
+		}
+		ns := p.Count(notify)
+		switch state {
+		case 3, 4: // connectivity.TransientFailure, connectivity.Shutdown
+			sawDown++
+			if len(sets) != 1 {
+				return false, "a path that sees TransientFailure/Shutdown does not record the disconnection in a flag of the watcher: by the time the connection is Ready again (through Idle/Connecting) nothing remembers it, and no reload is triggered"
+			}
+			if flag == "" {
+				flag = sets[0]
+			} else if flag != sets[0] {
+				return false, "the disconnection is recorded in different fields"
+			}
+			if ns != 0 {
+				return false, "listeners are notified while disconnected"
+			}
+		case 2: // connectivity.Ready
+			sawReady++
+			tested := false
+			for _, b := range p.All(px.KindIs(px.EvBranch)) {
+				if b.Cond != nil && b.Cond.Strip(false).Kind == px.KLoad && b.Cond.Strip(false).X != nil && b.Cond.Strip(false).X.Kind == px.KFieldAddr {
+					_, fname, _ := b.Cond.Strip(false).X.FieldAddrOf()
+					if flag == "" || fname == flag {
+						tested = true
+						if b.Taken && (ns != 1 || len(clears) != 1) {
+							return false, "Ready after a disconnection does not notify the listeners once and clear the flag"
+						}
+						if !b.Taken && ns != 0 {
+							return false, "Ready without a preceding disconnection notifies the listeners"
+						}
+					}
+				}
+			}
+			if !tested {
+				return false, "the Ready path does not consult the disconnection flag (whether to reload is decided from something that does not survive the intermediate states)"
+			}
+		default:
+			if ns != 0 || len(sets) != 0 || len(clears) != 0 {
+				return false, "an intermediate state notifies or touches the disconnection flag"
+			}
+		}
+		return true, ""
+	})
+	if sawDown == 0 || sawReady == 0 {
+		c.R.Undecided(rule, discovInt+".(*stateWatcher).updateState#cases", "the TransientFailure/Shutdown and Ready cases are recognised", fmt.Sprintf("down=%d ready=%d", sawDown, sawReady))
 	}
 }
